@@ -149,6 +149,11 @@ def run(ctx, rep):
             got_names = [c[0] for c in calls]
             if got_names != want_names:
                 rep.fail(key, 'oslopolicy-checker evaluated %r, expected %r' % (got_names, want_names), {'rules': rules})
+            if any(not isinstance(t_, dict) or not isinstance(c_, dict) for _, t_, c_ in calls):
+                rep.fail(key + '|shape', 'oslopolicy-checker evaluates rules against a target / credentials that are not mappings: %r'
+                         % ([(type(t_).__name__, type(c_).__name__) for _, t_, c_ in calls][:3],), {'rules': rules, 'token': tok})
+                rep.case(key=key, nontrivial=True)
+                continue
             # the target derived from the files: the flattened target file when one is given, else the caller's own ids
             if tfile is not None:
                 want_tgt = _flat(tfile)
